@@ -177,6 +177,32 @@ def rule_function_construction(ctx, rep):
                   sample={"path": path, "error blocks": len(errs)})
         rep.check(_teal_snapshot(ctx, teal) == before, rule, f"dispatch path {pname}: contract unchanged", where, "changed", "unchanged")
         n += 1
+    # a departure that rejoins the function body further down: the cut-off block must not remain a predecessor of a function block
+    REJOIN = "#pragma version 6\ntxn NumAppArgs\nbnz two\nint 1\npop\nb join\ntwo:\nint 2\npop\njoin:\nint 1\nreturn\n"
+    teal3 = w.call(pt, REJOIN, "c")
+    for path in (["B0", "B2"], ["B0", "B1"], ["B0", "B2", "B3"]):
+        try:
+            fn = w.call(cf, teal3, list(path))
+            fb = list(w.getattr(fn, "blocks"))
+            strangers = sorted({(w.getattr(b, "idx"), w.getattr(pb, "idx")) for b in fb for pb in w.getattr(b, "prev") if not any(pb is x for x in fb)}
+                               | {(w.getattr(b, "idx"), w.getattr(nb, "idx")) for b in fb for nb in w.getattr(b, "next") if not any(nb is x for x in fb)})
+            rep.check(not strangers, rule, f"dispatch path {','.join(path)} with a departure that rejoins the body", where, strangers, [],
+                      why="a block that is not part of the function is still a neighbour of a function block: the analysis looks it up and fails")
+        except PyRaise as e:
+            rep.violation(rule, f"dispatch path {','.join(path)} (rejoining departure) builds", where, f"RAISES {e.exc} {e.where}", "a function")
+    # a path block with a direct edge that skips part of the path: the skipping edge is a departure too
+    SKIP = "#pragma version 6\ntxn NumAppArgs\nbnz body\ntxn OnCompletion\nint OptIn\n==\nassert\nbody:\nint 1\nreturn\n"
+    teal2 = w.call(pt, SKIP, "c")
+    try:
+        fn = w.call(cf, teal2, ["B0", "B1", "B2"])
+        fm = {w.getattr(b, "idx"): b for b in w.getattr(w.getattr(fn, "main"), "blocks")}
+        b0n = w.getattr(fm[0], "next")
+        kinds = ["err" if (len(w.getattr(x, "instructions")) == 1 and w.getattr(x, "instructions")[0].cls.is_sub(ERR)) else w.getattr(x, "idx") for x in b0n]
+        prev2 = sorted(w.getattr(x, "idx") for x in w.getattr(fm[2], "prev")) if 2 in fm else None
+        rep.check(kinds == [1, "err"] and prev2 == [1], rule, "dispatch path B0,B1,B2 with an edge B0->B2 that skips B1", where, {"B0.next": kinds, "B2.prev": prev2},
+                  {"B0.next": [1, "err"], "B2.prev": [1]}, why="an edge from a path block to a later path block that is not its immediate successor departs from the path")
+    except PyRaise as e:
+        rep.violation(rule, "dispatch path with a skipping edge builds", where, f"RAISES {e.exc} {e.where}", "a function")
     for bad in (["B0", "B5"], ["B1"], ["B0", "B1", "B0"]):
         try:
             w.call(cf, teal, list(bad))
